@@ -1,11 +1,11 @@
 package main
 
 import (
-	"os"
 	"fmt"
 	"go/constant"
 	"go/types"
 	"math/big"
+	"os"
 	"strconv"
 	"strings"
 
@@ -19,20 +19,21 @@ type specVar struct {
 }
 
 type SpecEnv struct {
-	x          *Exec
-	c          *Ctx
-	st, old    *State
-	vars       map[string]specVar
-	pkg        *types.Package
-	guard      string
-	loopHeader *ssa.BasicBlock
-	frame      *Frame
-	override   map[ssa.Value]SV
-	prove      bool // clause is being proved (witness hints of exists are used), not assumed
-	preSt      *State // loop-entry state for pre(...) inside loop invariants
-	skolem     *int   // non-nil: skolemise quantifiers in goal position (counts how many were)
-	neg, mixed bool   // polarity of the sub-expression being evaluated
-	freshBase  string // watermark that fresh() is relative to (call-time watermark at a call site); "" = function entry
+	x            *Exec
+	c            *Ctx
+	st, old      *State
+	vars         map[string]specVar
+	pkg          *types.Package
+	guard        string
+	loopHeader   *ssa.BasicBlock
+	frame        *Frame
+	override     map[ssa.Value]SV
+	prove        bool   // clause is being proved (witness hints of exists are used), not assumed
+	ghostFromOld bool   // ghost variables read their value before the call (right-hand sides of ghostsets)
+	preSt        *State // loop-entry state for pre(...) inside loop invariants
+	skolem       *int   // non-nil: skolemise quantifiers in goal position (counts how many were)
+	neg, mixed   bool   // polarity of the sub-expression being evaluated
+	freshBase    string // watermark that fresh() is relative to (call-time watermark at a call site); "" = function entry
 }
 
 // SVal is the value of a spec expression.
@@ -480,6 +481,9 @@ func (e *SpecEnv) ident(name string) SVal {
 	}
 	if srt, ok := e.x.S.GhostVars[name]; ok {
 		srt = e.x.resolveSort(srt)
+		if e.ghostFromOld && e.old != nil {
+			return ghostVal(e.old.get(c.ghostVar(name, srt)), srt)
+		}
 		return ghostVal(e.st.get(c.ghostVar(name, srt)), srt)
 	}
 	if name == "$alloc" || name == "alloc" {
@@ -1016,6 +1020,36 @@ func (e *SpecEnv) call(x *Expr) SVal {
 				e.fail("pre(...) is only meaningful in a loop invariant")
 			}
 			return e.withState(e.preSt).eval(args[0])
+		case "visited":
+			// visited(k): key k has already been yielded by the map iteration of the loop this invariant belongs to
+			if e.loopHeader == nil || e.frame == nil {
+				e.fail("visited(k) is only meaningful in the invariant of a loop that ranges over a map")
+			}
+			var it *Iter
+			body := e.frame.loopBody[e.loopHeader]
+			for b := range body {
+				for _, in := range b.Instrs {
+					if nx, ok := in.(*ssa.Next); ok {
+						if sv, ok := e.frame.env[nx.Iter]; ok && sv.It != nil {
+							it = sv.It
+						}
+					}
+				}
+			}
+			if it == nil {
+				for _, in := range e.loopHeader.Instrs {
+					if nx, ok := in.(*ssa.Next); ok {
+						if sv, ok := e.frame.env[nx.Iter]; ok && sv.It != nil {
+							it = sv.It
+						}
+					}
+				}
+			}
+			if it == nil {
+				e.fail("visited(k): no map iteration found for this loop")
+			}
+			k := e.eval(args[0])
+			return goVal(sel(e.st.get(it.visited), k.T), tBool)
 		case "content":
 			// content(s): the whole backing array of slice s (use unchanged(content(s)) for "no byte of it was written")
 			a := e.eval(args[0])
@@ -1406,6 +1440,11 @@ func isGoTypeSpec(s string) bool {
 
 // ghostSets performs the contract's ghost assignments (evaluated in env's state) on st.
 func (e *SpecEnv) ghostSets(ct *Contract, st *State, guard string) {
+	// the right-hand sides read ghost variables as they were before the call (a `modifies` clause of the same
+	// contract has already given them unknown values in the current state); results and memory are post-call
+	e2 := *e
+	e2.ghostFromOld = true
+	e = &e2
 	for _, gs := range ct.GhostSets {
 		i := strings.Index(gs.Text, "=")
 		if i < 0 {
